@@ -84,6 +84,10 @@ impl ToTokens for Expansion {
 
         let repr_ty = &self.repr.ty();
 
+        // Every explicit discriminant is evaluated once, as a constant of the `repr` type: exactly
+        // the context `rustc` itself evaluates it in (so `x as _` infers), except that the constant
+        // sits inside a function, where `Self` has to be spelled as the enum's name.
+        let mut bases: Vec<TokenStream> = vec![];
         let mut last_discriminant = quote! { 0 };
         let mut inc = 0usize;
         let (consts, (discriminants, variants)): (
@@ -94,13 +98,17 @@ impl ToTokens for Expansion {
             .iter()
             .filter_map(
                 |syn::Variant {
-                     ident,
+                     ident: variant_ident,
                      fields,
                      discriminant,
                      ..
                  }| {
+                    let ident = variant_ident;
                     if let Some(d) = discriminant {
-                        last_discriminant = d.1.to_token_stream();
+                        let base = format_ident!("__DISCRIMINANT_BASE_{}", bases.len());
+                        let expr = replace_self(d.1.to_token_stream(), &self.ident);
+                        bases.push(quote! { const #base: #repr_ty = #expr; });
+                        last_discriminant = base.to_token_stream();
                         inc = 0;
                     }
                     let ret = {
@@ -131,6 +139,7 @@ impl ToTokens for Expansion {
                 #[allow(non_upper_case_globals)]
                 #[inline]
                 fn try_from(val: #repr_ty) -> derive_more::core::result::Result<Self, #error> {
+                    #( #bases )*
                     #( const #consts: #repr_ty = #discriminants; )*
                     match val {
                         #(#consts => derive_more::core::result::Result::Ok(#ident::#variants),)*
@@ -142,4 +151,25 @@ impl ToTokens for Expansion {
             }
         }.to_tokens(tokens);
     }
+}
+
+/// Replaces every `Self` in the provided tokens with the provided type name.
+fn replace_self(tokens: TokenStream, ty: &syn::Ident) -> TokenStream {
+    tokens
+        .into_iter()
+        .map(|tt| match tt {
+            proc_macro2::TokenTree::Ident(i) if i == "Self" => {
+                proc_macro2::TokenTree::Ident(syn::Ident::new(&ty.to_string(), i.span()))
+            }
+            proc_macro2::TokenTree::Group(g) => {
+                let mut group = proc_macro2::Group::new(
+                    g.delimiter(),
+                    replace_self(g.stream(), ty),
+                );
+                group.set_span(g.span());
+                proc_macro2::TokenTree::Group(group)
+            }
+            tt => tt,
+        })
+        .collect()
 }
